@@ -87,7 +87,8 @@ func (fi *FuncInfo) fieldsIn(e ast.Expr) map[*types.Var]bool {
 // between source positions a and b (a<b) of the same function: no variable
 // or field it mentions is assigned in between (loop-carried writes that are
 // textually outside (a,b) re-execute the guard at a first).
-func (fi *FuncInfo) stableBetween(e ast.Expr, a, b token.Pos) bool {
+func (fi *FuncInfo) stableBetween(e ast.Expr, from, to ast.Node) bool {
+	a, b := startOf(from), startOf(to)
 	vars := fi.varsIn(e)
 	// follow single-def substitutions too
 	for v := range vars {
@@ -102,7 +103,7 @@ func (fi *FuncInfo) stableBetween(e ast.Expr, a, b token.Pos) bool {
 			if d.kind == "param" {
 				continue
 			}
-			p := d.node.Pos()
+			p := startOf(d.node)
 			if p > a && p < b {
 				return false
 			}
@@ -112,7 +113,7 @@ func (fi *FuncInfo) stableBetween(e ast.Expr, a, b token.Pos) bool {
 	stable := true
 	fi.inspect(fi.Decl.Body, func(n ast.Node) bool {
 		as, ok := n.(*ast.AssignStmt)
-		if !ok || as.Pos() <= a || as.Pos() >= b {
+		if !ok || startOf(as) <= a || startOf(as) >= b {
 			return true
 		}
 		for _, l := range as.Lhs {
@@ -445,4 +446,35 @@ func (fi *FuncInfo) otherEdge(is *ast.IfStmt, n ast.Node) (calls []*ast.CallExpr
 		}, true, true
 	}
 	return nil, nil, false, false
+}
+
+// otherEdgeRoots: the statements executed on the edge of the if statement that
+// does not lead to n (see otherEdge for the shapes).
+func (fi *FuncInfo) otherEdgeRoots(is *ast.IfStmt, n ast.Node) []ast.Node {
+	switch {
+	case fi.within(n, is.Body) && is.Else != nil:
+		return []ast.Node{is.Else}
+	case is.Else != nil && fi.within(n, is.Else):
+		return []ast.Node{is.Body}
+	case !fi.within(n, is.Body):
+		return []ast.Node{is.Body}
+	case terminates(is.Body):
+		var list []ast.Stmt
+		switch p := fi.parent[is].(type) {
+		case *ast.BlockStmt:
+			list = p.List
+		case *ast.CaseClause:
+			list = p.Body
+		}
+		var out []ast.Node
+		for i, st := range list {
+			if st == ast.Stmt(is) {
+				for _, r := range list[i+1:] {
+					out = append(out, r)
+				}
+			}
+		}
+		return out
+	}
+	return nil
 }
